@@ -36,7 +36,10 @@ func opTimeout() time.Duration {
 	return d * 2 / 3
 }
 
-func impl(c core.Case) []string {
+func impl(c core.Case) []string { return implPause(c, nil) }
+
+// implPause runs a case; pause (may be nil) is called between its lines.
+func implPause(c core.Case, pause func()) []string {
 	out := make([]string, len(c.Lines))
 	if hangSeen.Load() {
 		for i := range out {
@@ -54,7 +57,7 @@ func impl(c core.Case) []string {
 				out[i] = s
 				progress.Store(int64(i + 1))
 			}
-		})
+		}, pause)
 		copy(out, res)
 	}()
 	select {
@@ -76,30 +79,86 @@ func impl(c core.Case) []string {
 	}
 }
 
-func implInner(c core.Case, put func(i int, s string)) []string {
-	cr := &caseRun{cnt: map[uint32]int{}}
-	i := 0
-	rec := func(s string) string {
-		put(i, s)
-		i++
-		return s
+const nObjects = 4
+
+// objArg parses a well-formed `obj k` line.
+func objArg(t []string) (int, bool) {
+	if len(t) != 2 || t[0] != "obj" {
+		return 0, false
 	}
-	return core.RunOps(c,
-		func(hdr []string) string {
-			switch {
-			case len(hdr) == 1 && hdr[0] == "rb":
-				return rec("ok")
-			case len(hdr) == 2 && hdr[0] == "rb" && strings.HasPrefix(hdr[1], "heights="):
-				// the tower heights of the inner skip list are forced from here on (the Lean
-				// model has no towers and ignores the token); unknown kinds force nothing
-				if src, ok := parseHeights(hdr[1]); ok && src.kind != "natural" {
-					cr.src = src
-				}
-				return rec("ok")
+	k, err := strconv.Atoi(t[1])
+	if err != nil || k < 0 || k >= nObjects || t[1] != strconv.Itoa(k) {
+		return 0, false
+	}
+	return k, true
+}
+
+// implInner: FOUR independent RoaringBitmaps per case (each with its own Seq/Iter slots and
+// forced-height source); `obj k` makes object k current, every other line acts on the current
+// object.  A panic kills the object it happened in only (`dead` from then on).
+// pause (may be nil) is called between lines (parallel-confined Extra).
+func implInner(c core.Case, put func(i int, s string), pause func()) []string {
+	out := make([]string, 0, len(c.Lines))
+	rec := func(s string) {
+		put(len(out), s)
+		out = append(out, s)
+	}
+	var objs [nObjects]*caseRun
+	var dead [nObjects]bool
+	for k := range objs {
+		objs[k] = &caseRun{cnt: map[uint32]int{}}
+	}
+	hdr := core.Toks(c.Lines[0])
+	if len(hdr) >= 2 {
+		hdr = hdr[2:]
+	}
+	okHdr := false
+	switch {
+	case len(hdr) == 1 && hdr[0] == "rb":
+		okHdr = true
+	case len(hdr) == 2 && hdr[0] == "rb" && strings.HasPrefix(hdr[1], "heights="):
+		// the tower heights of the inner skip lists are forced (the Lean model has no
+		// towers and ignores the token); unknown kinds force nothing
+		okHdr = true
+		if src, ok := parseHeights(hdr[1]); ok && src.kind != "natural" {
+			for k := range objs {
+				objs[k].src = src.forObject(k)
 			}
-			return rec("bad-op")
-		},
-		func(t []string) string { return rec(step(cr, t)) })
+		}
+	}
+	if !okHdr {
+		for range c.Lines {
+			rec("bad-op")
+		}
+		return out
+	}
+	rec("ok")
+	cur := 0
+	for _, l := range c.Lines[1:] {
+		if pause != nil {
+			pause()
+		}
+		t := core.Toks(l)
+		if len(t) > 0 && t[0] == "obj" {
+			if k, ok := objArg(t); ok {
+				cur = k
+				rec("ok")
+			} else {
+				rec("bad-op")
+			}
+			continue
+		}
+		if dead[cur] {
+			rec("dead")
+			continue
+		}
+		o := core.Guard(func() string { return step(objs[cur], t) })
+		if o == "panic" {
+			dead[cur] = true
+		}
+		rec(o)
+	}
+	return out
 }
 
 func step(cr *caseRun, t []string) string {
@@ -236,8 +295,12 @@ func stepPlain(cr *caseRun, t []string) string {
 // order, plus the structural clauses on the reflected representation (`rep`), evaluated
 // without the Lean model.
 func check(c core.Case, out []string) *core.Failure {
-	ref := newRef()
-	hs := newRefHandles()
+	var refs [nObjects]*refSet
+	var hss [nObjects]*refHandles
+	for k := range refs {
+		refs[k], hss[k] = newRef(), newRefHandles()
+	}
+	ref, hs := refs[0], hss[0]
 	fail := func(i int, key, want string) *core.Failure {
 		return &core.Failure{Key: key, Desc: fmt.Sprintf("op %d %q: implementation answered %q, a set of uint32 with %d members answers %q", i, c.Lines[i], out[i], ref.size(), want)}
 	}
@@ -245,6 +308,13 @@ func check(c core.Case, out []string) *core.Failure {
 		t := core.Toks(c.Lines[i])
 		if rest, key, why := alarmOf(out[i]); key != "" {
 			return &core.Failure{Key: key, Desc: fmt.Sprintf("op %d %q (answer %q): in-place validation of the real representation failed: %s", i, c.Lines[i], rest, why)}
+		}
+		if k, ok := objArg(t); ok { // several independent objects: each is judged against its own reference
+			ref, hs = refs[k], hss[k]
+			if out[i] != "ok" {
+				return fail(i, "object-switch", "ok")
+			}
+			continue
 		}
 		switch out[i] {
 		case "bad-op":
